@@ -28,6 +28,13 @@ func New(suffix string) *World {
 	return &World{Root: root, Int: in, CRL: origin.New(), OCSP: origin.New()}
 }
 
+// NewWithKeys is New with caller-chosen keys for root and intermediate (nil = P-256).
+func NewWithKeys(suffix string, rootKey, intKey crypto.Signer) *World {
+	root := pki.NewRoot(pki.CertOpts{CN: "Verif Root " + suffix, Key: rootKey})
+	in := root.Issue(pki.CertOpts{CN: "Verif Issuing CA " + suffix, IsCA: true, Key: intKey})
+	return &World{Root: root, Int: in, CRL: origin.New(), OCSP: origin.New()}
+}
+
 func (w *World) Close() {
 	w.CRL.Close()
 	w.OCSP.Close()
@@ -43,6 +50,7 @@ func (w *World) Leaf(serial *big.Int, cdp []string, aia []string) []*x509.Certif
 type OCSPStatus struct {
 	Status     int // ocsp.Good / ocsp.Revoked / ocsp.Unknown
 	NextUpdate time.Time
+	ThisUpdate time.Time // zero: one minute ago
 }
 
 // Responder builds an origin behaviour answering OCSP requests, signed by signer (issuer itself
@@ -71,6 +79,9 @@ func MakeResponse(issuer *pki.CA, responderCert *x509.Certificate, responderKey 
 		ThisUpdate:   now.Add(-time.Minute),
 		NextUpdate:   st.NextUpdate,
 		IssuerHash:   crypto.SHA1,
+	}
+	if !st.ThisUpdate.IsZero() {
+		t.ThisUpdate = st.ThisUpdate
 	}
 	if st.Status == ocsp.Revoked {
 		t.RevokedAt = now.Add(-time.Hour)
